@@ -40,9 +40,13 @@ def setup_worker(ctx):
 
 def gen_case(rng, idx, tier):
     r = rng.random()
-    if rng.random() < 0.15:
+    r2 = rng.random()
+    if r2 < 0.15:
         from rv import bcast
         return bcast.gen(rng, tier)
+    if r2 < 0.2:
+        from rv import evpersp
+        return evpersp.gen(rng, tier)
     if r < 0.55:
         names = list(AT.ATOMS)
         atom = names[idx % len(names)] if rng.random() < 0.7 else None
@@ -61,6 +65,9 @@ def run_case(spec, ctx):
     if spec.get('kind') == 'bcast':
         from rv import bcast
         return bcast.run(spec, ctx)
+    if spec.get('kind') == 'evpersp':
+        from rv import evpersp
+        return evpersp.run(spec, ctx)
     mode = spec['mode']
     res = c06.run_case(spec, ctx, want_B=True)
     B = res.pop('B', None)
